@@ -1,4 +1,6 @@
 import Proofs.C01Mux
+import Proofs.C06Pipe
+import Proofs.C06Lock
 /-!
 # C06 — every request ends exactly once; streams are never leaked (property theorems)
 
@@ -51,6 +53,220 @@ theorem C06_close_unblocks (st : St) (c s : Nat) (hc : st.closed = true) (hw : s
 theorem C06_waiting_never_stuck (st : St) (c s : Nat) (hw : st.pc c = .waiting s) :
     (step st (.timeout c)).isSome = true := by
   simp [step, hw]
+
+/-! ## The finer receive pipeline (`Model/MuxPipe.lean`): `deliver` split into recvHeader / recvBody* / recvBodyEnd
+    and the three arms of recv's final select, with a caller giving up (`timeout` / `cancel` / `connDone`)
+    between ANY two of them. All theorems: every action list of the fine machine. -/
+
+/-- a caller can give up at every point of its response's journey: its timer and its context are enabled
+    whatever the receive loop is doing (reading the header, in the middle of the body, in the final select) -/
+theorem C06_pipe_giveup_anywhere (st : MuxPipe.St) (c s : Nat) (hw : st.m.pc c = .waiting s) :
+    (MuxPipe.step st (.mux (.timeout c))).isSome = true ∧ (MuxPipe.step st (.mux (.cancel c))).isSome = true := by
+  simp [MuxPipe.step, Mux.step, hw, MuxPipe.closesTimeout]
+
+/-- the receive loop never blocks forever in its final select — and needs neither the server nor a closer for
+    that: whenever it holds a response for call `d`, either `d` is in its select (the hand-over is a rendezvous)
+    or `d` has closed its timeout channel (recv releases the id itself). Restates `C06_waiting_never_stuck`
+    for the receiver; this is the theorem that seeded change C06-5 falsifies (`C06_pipe_probe_early_stuck`). -/
+theorem C06_pipe_recv_never_stuck (cap : Nat) (as : List MuxPipe.Act) (st : MuxPipe.St)
+    (h : MuxPipe.run (MuxPipe.init cap) as = some st) (s d c k w : Nat) (hr : st.rcv = .hand s d c k w) :
+    (MuxPipe.step st .handResp).isSome = true ∨ (MuxPipe.step st .handGone).isSome = true := by
+  have inv := MuxPipe.pinv_run as _ st (MuxPipe.pinv_init cap) h
+  obtain ⟨hw, ho⟩ := inv.held_wire s d c k w (Or.inr hr)
+  have hp := inv.base.own_pc s d ho
+  have ha := inv.base.acq_wire d s
+  rcases hp.2.2.2 with hp | hp | ⟨_, o, hp⟩
+  · have := ha hp; simp [hw] at this
+  · left; simp [MuxPipe.step, hr, hp]
+  · right; have := inv.done_tc s d o ho hp; simp [MuxPipe.step, hr, this]
+
+/-- whichever of the two arms is taken, the id is released exactly once and the receive loop goes on: after
+    the hand-over the id is free, its release count is 1, and recv is reading the next header … -/
+theorem C06_pipe_handover_releases (cap : Nat) (as : List MuxPipe.Act) (st st' : MuxPipe.St)
+    (h : MuxPipe.run (MuxPipe.init cap) as = some st) (s d c k w : Nat) (hr : st.rcv = .hand s d c k w)
+    (a : MuxPipe.Act) (ha : a = .handResp ∨ a = .handGone) (hs : MuxPipe.step st a = some st') :
+    st'.m.owner s = none ∧ st'.m.clears d = 1 ∧ st'.rcv = .idle := by
+  have inv := MuxPipe.pinv_run as _ st (MuxPipe.pinv_init cap) h
+  obtain ⟨hw, ho⟩ := inv.held_wire s d c k w (Or.inr hr)
+  have hc := (inv.base.own_pc s d ho).1
+  rcases ha with ha | ha <;> subst ha <;> simp only [MuxPipe.step, hr] at hs <;> split at hs <;>
+    first | (simp at hs; done) | (injection hs with hs; subst hs; simp [upd, hc])
+
+/-- … and the caller that was still in its select got the response of ITS OWN request -/
+theorem C06_pipe_handover_routing (cap : Nat) (as : List MuxPipe.Act) (st st' : MuxPipe.St)
+    (h : MuxPipe.run (MuxPipe.init cap) as = some st) (s d c k w : Nat) (hr : st.rcv = .hand s d c k w)
+    (hs : MuxPipe.step st .handResp = some st') : c = d ∧ st'.m.pc d = .done (.resp d k w) ∧ st.m.sent d = some (k, w) := by
+  have inv := MuxPipe.pinv_run as _ st (MuxPipe.pinv_init cap) h
+  obtain ⟨hw, ho⟩ := inv.held_wire s d c k w (Or.inr hr)
+  have hcd : c = d := by
+    have := inv.base.wire_own s
+    grind
+  subst hcd
+  refine ⟨rfl, ?_, inv.base.ans_sent s c k w hw⟩
+  simp only [MuxPipe.step, hr] at hs
+  split at hs
+  · injection hs with hs; subst hs; simp [upd]
+  · simp at hs
+
+/-- each acquired id is released at most once on every schedule of the fine machine (`C06_release_once` restated) -/
+theorem C06_pipe_release_once (cap : Nat) (as : List MuxPipe.Act) (st : MuxPipe.St)
+    (h : MuxPipe.run (MuxPipe.init cap) as = some st) (c : Nat) : st.m.clears c ≤ 1 :=
+  (MuxPipe.pinv_run as _ st (MuxPipe.pinv_init cap) h).base.clears_le c
+
+/-- a call's outcome is set at most once (`C06_exactly_one_outcome` restated) -/
+theorem C06_pipe_exactly_one_outcome (as : List MuxPipe.Act) (st st' : MuxPipe.St) (c : Nat) (o : Outcome)
+    (hd : st.m.pc c = .done o) (hr : MuxPipe.run st as = some st') : st'.m.pc c = .done o :=
+  MuxPipe.pdone_run as st st' c o hd hr
+
+/-- while the receive loop is reading the body of (or handing over) the response on id `s`, `s` stays reserved for
+    the call that sent the request — also when that call gives up in the middle of the body — so no other
+    request can be sent on `s` -/
+theorem C06_pipe_body_keeps_id (cap : Nat) (as : List MuxPipe.Act) (st : MuxPipe.St)
+    (h : MuxPipe.run (MuxPipe.init cap) as = some st) (s d c k w : Nat)
+    (hr : st.rcv = .body s d c k w ∨ st.rcv = .hand s d c k w) (c' : Nat) :
+    st.m.owner s = some d ∧ MuxPipe.step st (.mux (.acquire c' s)) = none := by
+  have inv := MuxPipe.pinv_run as _ st (MuxPipe.pinv_init cap) h
+  obtain ⟨hw, ho⟩ := inv.held_wire s d c k w hr
+  refine ⟨ho, ?_⟩
+  simp [MuxPipe.step, Mux.step, ho]
+
+/-- the exact account of reserved ids on an open connection: an id is reserved only for a call that is still in
+    flight, or while the request / response it was used for is still outstanding (unanswered, on its way, or in
+    the receive loop's hand). This is what the harness compares AvailableStreams() with (`a=`). -/
+theorem C06_pipe_reserved_exact (cap : Nat) (as : List MuxPipe.Act) (st : MuxPipe.St)
+    (h : MuxPipe.run (MuxPipe.init cap) as = some st) (hc : st.m.closed = false) (s c : Nat) (ho : st.m.owner s = some c) :
+    st.m.pc c = .acquired s ∨ st.m.pc c = .waiting s ∨ st.m.wire s ≠ .none := by
+  have inv := MuxPipe.pinv_run as _ st (MuxPipe.pinv_init cap) h
+  rcases (inv.base.own_pc s c ho).2.2.2 with hp | hp | ⟨_, o, hp⟩
+  · exact Or.inl hp
+  · exact Or.inr (Or.inl hp)
+  · exact Or.inr (Or.inr (inv.done_wire s c o ho hp hc))
+
+/-- hence a quiescent open connection has its full complement of ids (`C06_quiescent_full` restated, without the
+    hypothesis that nobody ever gave up) -/
+theorem C06_pipe_quiescent_full (cap : Nat) (as : List MuxPipe.Act) (st : MuxPipe.St)
+    (h : MuxPipe.run (MuxPipe.init cap) as = some st) (hc : st.m.closed = false)
+    (hq : ∀ c s, st.m.pc c ≠ .acquired s ∧ st.m.pc c ≠ .waiting s) (hw : ∀ s, st.m.wire s = .none) :
+    ∀ s, st.m.owner s = none := by
+  intro s
+  cases ho : st.m.owner s with
+  | none => rfl
+  | some c =>
+    have := C06_pipe_reserved_exact cap as st h hc s c ho
+    have := hq c s
+    have := hw s
+    grind
+
+/-- closing unblocks a caller whatever the receive loop is doing with its response -/
+theorem C06_pipe_close_unblocks (st : MuxPipe.St) (c s : Nat) (hc : st.m.closed = true) (hw : st.m.pc c = .waiting s) :
+    (MuxPipe.step st (.mux (.connDone c))).isSome = true := by
+  simp [MuxPipe.step, Mux.step, hw, hc, MuxPipe.closesTimeout]
+
+/-- Counterexample for the receive loop of seeded change C06-5 (`MuxPipe.stepProbeEarly`: `call.timeout` probed once
+    after the header, no `<-call.timeout` arm in the final select): the caller gives up while the body is being
+    read, and the receive loop is stuck in its select with the id never released. -/
+theorem C06_pipe_probe_early_stuck :
+    ∃ st, MuxPipe.runProbeEarly (MuxPipe.init 128)
+        [.mux (.acquire 1 5), .mux (.wrote 1), .mux (.answer 5 0 1), .recvHeader 5, .recvBody, .mux (.cancel 1), .recvBodyEnd] = some st ∧
+      st.rcv = .hand 5 1 1 0 1 ∧ st.m.closed = false ∧ st.m.owner 5 = some 1 ∧
+      MuxPipe.stepProbeEarly st .handResp = none ∧ MuxPipe.stepProbeEarly st .handGone = none ∧
+      MuxPipe.stepProbeEarly st .handCtx = none := by
+  refine ⟨_, rfl, ?_, ?_, ?_, ?_, ?_, ?_⟩ <;> decide
+
+/-- non-vacuity: the same schedule on the machine of the code that exists: the receiver takes the `<-call.timeout`
+    arm, the id comes back, and a probe request on the same id is served -/
+example : ∃ st, MuxPipe.run (MuxPipe.init 128)
+    [.mux (.acquire 1 5), .mux (.wrote 1), .mux (.answer 5 0 1), .recvHeader 5, .recvBody, .mux (.cancel 1), .recvBodyEnd,
+     .handGone, .mux (.acquire 2 5), .mux (.wrote 2), .mux (.answer 5 1 2), .recvHeader 5, .recvBodyEnd, .handResp] = some st ∧
+    st.m.pc 1 = .done .ctxErr ∧ st.m.pc 2 = .done (.resp 2 1 2) ∧ st.m.clears 1 = 1 ∧ st.m.owner 5 = none ∧ st.rcv = .idle := by
+  refine ⟨_, rfl, ?_, ?_, ?_, ?_, ?_⟩ <;> decide
+
+/-! ## Closing calls back into the owner: the lock discipline of hostConnPool (`Model/PoolLock.lean`)
+
+    FULL PROPERTY ("closing a connection or a session returns"): for every set of goroutines running the pool's
+    methods (Close, HandleError, Pick / Size, Conn.Close, closeWithError(err), the tail of connect()) on
+    connections of which ANY may have a transport whose Close() reports an error, under every schedule, no
+    goroutine ever waits for pool.mu while holding it, the holder of pool.mu can always move, and as long as
+    anybody has work left somebody can move.
+
+    The unchanged code violates it at one site (KF-C06-1, `C06_pool_cex_connect_after_close`): hostConnPool.connect
+    closes a connection that finished connecting after the pool was closed UNDER pool.mu. The theorems below are
+    therefore `_partial`: hypothesis `hp` (`PoolLock.ok cerr false`) admits the tail of connect() only for
+    connections whose transport reports no Close error; everything else — Close, HandleError, Pick, Conn.Close and
+    closeWithError(err) on faulty transports, in any number and any order — is covered. -/
+
+/-- the programs of the pool's methods respect the lock discipline, whatever the transports do on Close … -/
+theorem C06_pool_methods_ok (cerr : Nat → Bool) (c : Nat) :
+    PoolLock.ok cerr false PoolLock.pClose = true ∧ PoolLock.ok cerr false (PoolLock.pHandleError c) = true ∧
+    PoolLock.ok cerr false PoolLock.pPick = true ∧ PoolLock.ok cerr false [.connClose c] = true ∧
+    PoolLock.ok cerr false [.connError c] = true ∧
+    PoolLock.ok cerr false (PoolLock.pConnectTail c) = !cerr c := by
+  simp [PoolLock.ok, PoolLock.pClose, PoolLock.pHandleError, PoolLock.pPick, PoolLock.pConnectTail]
+
+/-- … and so does every sequence of them run by one goroutine -/
+theorem C06_pool_methods_compose (cerr : Nat → Bool) (a b : List PoolLock.Instr)
+    (ha : PoolLock.ok cerr false a = true) (hb : PoolLock.ok cerr false b = true) : PoolLock.ok cerr false (a ++ b) = true := by
+  rw [PoolLock.ok_append cerr a b false ha]; exact hb
+
+/-- no goroutine ever waits for pool.mu while holding it (partial: see above) -/
+theorem C06_pool_no_self_deadlock_partial (cerr : Nat → Bool) (conns : List Nat) (prog : Nat → List PoolLock.Instr)
+    (hp : ∀ t, PoolLock.ok cerr false (prog t) = true) (ts : List Nat) (st : PoolLock.St)
+    (hr : PoolLock.run cerr (PoolLock.init conns prog) ts = some st) (t : Nat) : PoolLock.selfDeadlocked st t = false := by
+  have inv := PoolLock.linv_run cerr ts _ st (PoolLock.linv_init cerr conns prog hp) hr t
+  unfold PoolLock.selfDeadlocked
+  split
+  · rename_i r hpr
+    cases hh : decide (st.holder = some t) with
+    | true => simp [hpr, hh, PoolLock.ok] at inv
+    | false => simpa using hh
+  · rfl
+
+/-- whoever holds pool.mu can always move: a goroutine blocked on pool.mu (Pick, Size, HandleError, a second Close)
+    waits for somebody who is not blocked (partial: see above) -/
+theorem C06_pool_holder_moves_partial (cerr : Nat → Bool) (conns : List Nat) (prog : Nat → List PoolLock.Instr)
+    (hp : ∀ t, PoolLock.ok cerr false (prog t) = true) (ts : List Nat) (st : PoolLock.St)
+    (hr : PoolLock.run cerr (PoolLock.init conns prog) ts = some st) (t : Nat) (hh : st.holder = some t) :
+    (PoolLock.step cerr st t).isSome = true :=
+  PoolLock.holder_steps cerr st t (PoolLock.linv_run cerr ts _ st (PoolLock.linv_init cerr conns prog hp) hr) hh
+
+/-- no global deadlock: as long as some goroutine has not finished, some goroutine can move (partial: see above) -/
+theorem C06_pool_never_stuck_partial (cerr : Nat → Bool) (conns : List Nat) (prog : Nat → List PoolLock.Instr)
+    (hp : ∀ t, PoolLock.ok cerr false (prog t) = true) (ts : List Nat) (st : PoolLock.St)
+    (hr : PoolLock.run cerr (PoolLock.init conns prog) ts = some st) (u : Nat) (hu : st.prog u ≠ []) :
+    ∃ t, (PoolLock.step cerr st t).isSome = true :=
+  PoolLock.some_thread_steps cerr st u (PoolLock.linv_run cerr ts _ st (PoolLock.linv_init cerr conns prog hp) hr) hu
+
+/-- with props/C06.fix-KF-C06-1.diff (connect() gives pool.mu back before it closes the late connection) the tail of
+    connect() respects the discipline for EVERY connection, faulty transport or not: the hypothesis `hp` of the three
+    theorems above then excludes nothing that the pool's methods do, i.e. they become the full property -/
+theorem C06_pool_fixed_connect_ok (cerr : Nat → Bool) (c : Nat) :
+    PoolLock.ok cerr false (PoolLock.pConnectTailFixed c) = true := by
+  simp [PoolLock.ok, PoolLock.pConnectTailFixed]
+
+/-- Counterexample on the code that exists (KF-C06-1): goroutine 0 closes the pool; goroutine 1 is the tail of
+    connect() for connection 7, whose transport reports an error from Close. connect() finds the pool closed and
+    closes the connection under pool.mu; closeWithError reports the transport's error to HandleError, which waits
+    for pool.mu on the goroutine that holds it. (replay: `cfk 4 2 01 0 1 P`) -/
+theorem C06_pool_cex_connect_after_close :
+    ∃ st, PoolLock.run (fun c => c == 7) (PoolLock.init [1] (fun t => if t = 0 then PoolLock.pClose else if t = 1 then PoolLock.pConnectTail 7 else []))
+        [0, 0, 0, 0, 0, 1, 1, 1] = some st ∧
+      PoolLock.selfDeadlocked st 1 = true ∧ st.holder = some 1 ∧ PoolLock.step (fun c => c == 7) st 1 = none := by
+  refine ⟨_, rfl, ?_, ?_, ?_⟩ <;> decide
+
+/-- Counterexample for hostConnPool.Close of seeded change C06-6 (`pCloseHoldingLock`: the connections are closed
+    while pool.mu is held): one pooled connection whose transport reports an error from Close is enough. -/
+theorem C06_pool_cex_close_holding_lock :
+    ∃ st, PoolLock.run (fun _ => true) (PoolLock.init [1] (fun t => if t = 0 then PoolLock.pCloseHoldingLock else []))
+        [0, 0, 0, 0] = some st ∧ PoolLock.selfDeadlocked st 0 = true := by
+  refine ⟨_, rfl, ?_⟩; decide
+
+/-- non-vacuity: the code that exists closes a pool of two connections with faulty transports, both report their
+    Close error to HandleError after the lock was released, a concurrent Pick and a second Close get through -/
+example : ∃ st, PoolLock.run (fun _ => true)
+    (PoolLock.init [1, 2] (fun t => if t = 0 then PoolLock.pClose else if t = 1 then PoolLock.pPick else if t = 2 then PoolLock.pClose else []))
+    [0, 0, 0, 0, 0, 1, 1, 1, 0, 0, 0, 0, 0, 0, 0, 2, 2, 2, 2] = some st ∧
+    st.holder = none ∧ st.closed = true ∧ st.conns = [] ∧ st.closes 1 = 1 ∧ st.closes 2 = 1 ∧ st.prog 0 = [] ∧ st.prog 1 = [] ∧ st.prog 2 = [] := by
+  refine ⟨_, rfl, ?_, ?_, ?_, ?_, ?_, ?_, ?_, ?_⟩ <;> decide
 
 example : ∃ st, run (init 128) [.acquire 1 5, .wrote 1, .stray 63, .answer 5 18 1, .event, .deliver 5] = some st ∧
     st.pc 1 = .done (.resp 1 18 1) ∧ st.clears 1 = 1 ∧ st.owner 5 = none := by
